@@ -238,29 +238,29 @@ Print Assumptions C08_plain_histories_embed.
    same for a library key fetch and for the keep-alive ping's pong. *)
 Theorem C08_register_after_send_refuted :
   let r := mkreq 1 (OApp KLastSeen) in
-  let nested := SApp KLastSeen true true no_retry [mkndel 1 TResult ShPlain] in
-  refutes_sync cfg_regafter_both KLastSeen [mkndel 1 TResult ShPlain] [] /\
-  refutes_sync cfg_regafter_proto KLastSeen [mkndel 1 TError ShPlain] [] /\
-  refutes_sync cfg_regafter_iface KGList [mkndel 1 TResult ShPlain] [] /\
+  let nested := SApp KLastSeen true true no_retry [nd 1 TResult ShPlain] in
+  refutes_sync cfg_regafter_both KLastSeen [nd 1 TResult ShPlain] [] /\
+  refutes_sync cfg_regafter_proto KLastSeen [nd 1 TError ShPlain] [] /\
+  refutes_sync cfg_regafter_iface KGList [nd 1 TResult ShPlain] [] /\
   app_cbs 1 (sevents cfg_regafter_both init [nested]) = [] /\
   In (EvTop 1) (sevents cfg_regafter_iface init [nested]) /\
   lookup 1 (app (sfinal cfg_regafter_both init [nested])) <> None /\
   lookup 1 (regs (sfinal cfg_regafter_both init [nested]) LPresence) <> None /\
   lookup 1 (app (sfinal cfg_regafter_iface init [nested])) <> None /\
   app_cbs 1 (snd (sstep cfg_regafter_both (sfinal cfg_regafter_both init [nested])
-                        (SDeliver 1 TResult ShPlain))) = [(Success, r)] /\
+                        (SDeliver 1 TResult ShPlain no_content))) = [(Success, r)] /\
   app_cbs 1 (snd (sstep cfg_regafter_proto (sfinal cfg_regafter_proto init [nested])
-                        (SDeliver 1 TError ShPlain))) = [(Error, r)] /\
-  lib_cbs 1 (sevents cfg_regafter_proto init [SLib LKFetchCtl [mkndel 1 TError ShPlain]]) = [] /\
-  lookup 1 (regs (sfinal cfg_regafter_proto init [SLib LKFetchCtl [mkndel 1 TError ShPlain]]) LCtl)
+                        (SDeliver 1 TError ShPlain no_content))) = [(Error, r)] /\
+  lib_cbs 1 (sevents cfg_regafter_proto init [SLib LKFetchCtl [nd 1 TError ShPlain]]) = [] /\
+  lookup 1 (regs (sfinal cfg_regafter_proto init [SLib LKFetchCtl [nd 1 TError ShPlain]]) LCtl)
     <> None /\
-  lib_cbs 1 (sevents cfg_regafter_proto init [SLib LKFetchCtl [mkndel 1 TError ShPlain];
-                                              SDeliver 1 TError ShPlain])
+  lib_cbs 1 (sevents cfg_regafter_proto init [SLib LKFetchCtl [nd 1 TError ShPlain];
+                                              SDeliver 1 TError ShPlain no_content])
     = [(Error, mkreq 1 (OLib LKFetchCtl))] /\
-  iface_evs 1 (sevents cfg_regafter_proto init [SLib LKPing [mkndel 1 TResult ShPlain]]) = [] /\
-  app_cbs 1 (sevents cfg_repaired init [nested; SDeliver 1 TResult ShPlain]) = [(Success, r)] /\
+  iface_evs 1 (sevents cfg_regafter_proto init [SLib LKPing [nd 1 TResult ShPlain]]) = [] /\
+  app_cbs 1 (sevents cfg_repaired init [nested; SDeliver 1 TResult ShPlain no_content]) = [(Success, r)] /\
   app_cbs 1 (snd (sstep cfg_repaired (sfinal cfg_repaired init [nested])
-                        (SDeliver 1 TResult ShPlain))) = [] /\
+                        (SDeliver 1 TResult ShPlain no_content))) = [] /\
   lookup 1 (app (sfinal cfg_repaired init [nested])) = None.
 Proof. exact register_after_send_refuted. Qed.
 Print Assumptions C08_register_after_send_refuted.
@@ -274,3 +274,21 @@ Theorem C08_register_order_unobservable_sequentially : forall c1 c2,
   forall h st, run c1 st h = run c2 st h.
 Proof. exact register_order_unobservable_sequentially. Qed.
 Print Assumptions C08_register_order_unobservable_sequentially.
+
+(* The CONTENT of a delivered stanza is irrelevant: the registries and callbacks depend on tag,
+   id and type of an incoming iq (the receive handlers additionally on [shape]) and on nothing
+   else -- not on an <error> child or its code / text / backoff attributes, further children,
+   further attributes.  Histories that agree up to content have the same per-op events and the
+   same final state, for any table.  Hence all theorems above quantify over every such content:
+   after the first result/error iq for its id -- whatever it carries -- a request is answered,
+   later stanzas for the id fire nothing and no registry holds an entry for it.  (Seeded C08-8
+   kept the entry for errors with a positive backoff.) *)
+Theorem C08_reply_content_irrelevant :
+  (forall c st i t sh ct1 ct2,
+     sstep c st (SDeliver i t sh ct1) = sstep c st (SDeliver i t sh ct2)) /\
+  (forall c h st, srun c st (map erase h) = srun c st h) /\
+  (forall c h1 h2 st, map erase h1 = map erase h2 -> srun c st h1 = srun c st h2).
+Proof.
+  split; [reflexivity|]. split; [exact reply_content_irrelevant_thm|exact same_up_to_content_thm].
+Qed.
+Print Assumptions C08_reply_content_irrelevant.
